@@ -61,6 +61,8 @@ pub fn read_graphml_string(string: &str, specs: GraphSpecs) -> Result<Graph<Stri
     let mut last_element_name: String = "".to_string();
     let mut edge_weight_attr_name = "weight".to_string();
     loop {
+        #[cfg(feature = "verif-hooks")]
+        crate::verif_hooks::tick("graphml_event");
         match reader.read_event_into(&mut buf) {
             Ok(Event::Empty(ref e)) => match e.name().as_ref() {
                 b"node" => {
